@@ -116,11 +116,11 @@ theorem C10_waiter_records_request (cfg : Cfg) (pol : Policy) (step : Nat) (tick
         exact ih hany
   split
   · rename_i hany
-    refine ⟨{ wid := wid, ev := acc.exec.ev, waitTy := ty, req := req, hasReq := req.isSome }, ?_, rfl, rfl, rfl, rfl, rfl⟩
+    refine ⟨(newWaiter acc.exec wid ty req), ?_, rfl, rfl, rfl, rfl, rfl⟩
     simp only [State.set, if_true]
     exact key _ _ rfl hany
   · rename_i hany
-    refine ⟨{ wid := wid, ev := acc.exec.ev, waitTy := ty, req := req, hasReq := req.isSome }, ?_, rfl, rfl, rfl, rfl, rfl⟩
+    refine ⟨(newWaiter acc.exec wid ty req), ?_, rfl, rfl, rfl, rfl, rfl⟩
     simp only [State.set, if_true]
     rw [List.find?_append]
     have : (acc.st.workers step).waiters.find? (fun x => x.wid == wid) = none := by
@@ -128,7 +128,7 @@ theorem C10_waiter_records_request (cfg : Cfg) (pol : Policy) (step : Nat) (tick
       intro x hx
       simp only [List.any_eq_true, not_exists, not_and] at hany
       exact hany x hx
-    simp [this]
+    simp [this, newWaiter]
 
 /-- **once per wait**: a waiter that already has its event never matches again -/
 theorem C10_no_rematch (w : Waiter) (ev : Ev) (h : w.resolved.isSome) : waiterMatches w ev = false := by
